@@ -178,6 +178,13 @@ func checkC12(h *harness.H, ci interface{}) *harness.Failure {
 		} else {
 			h.S.Count("minus_o_refused")
 		}
+	case "punct":
+		// every punctuation token of the documented grammar is mandatory where it stands (only
+		// parentheses come in optional pairs, and one of a pair is unbalanced): without it, or with
+		// it twice, the text is no sentence of the grammar
+		if v.ParseOK {
+			return harness.Failf("a text with one punctuation token %s was accepted\nbase:\n%s\nvariant:\n%s", c.Inserted, c.Base, c.Variant)
+		}
 	case "illegal":
 		if v.ParseOK {
 			msg := compareDecls(c.Expect, v.Dump)
@@ -189,6 +196,10 @@ func checkC12(h *harness.H, ci interface{}) *harness.Failure {
 	}
 	return nil
 }
+
+// punctuation that the documented grammar requires wherever it occurs
+var punctTokens = map[string]bool{";": true, ",": true, ":": true, "=": true, "<-": true, "=>": true, ".": true, "|": true, "*": true, "-*": true,
+	"/\\": true, "\\/": true, "(": true, ")": true, "{": true, "}": true, "[": true, "]": true, "<": true, ">": true}
 
 var gritsKeywords = map[string]bool{"send": true, "recv": true, "receive": true, "case": true, "close": true, "wait": true, "cast": true, "shift": true,
 	"accept": true, "acc": true, "acquire": true, "acq": true, "detach": true, "det": true, "release": true, "rel": true, "drop": true, "split": true, "push": true,
@@ -254,7 +265,31 @@ func TestC12(t *testing.T) {
 				declEnd = append(declEnd, len(toks))
 			}
 			c := &caseC12{Base: strings.Join(toks, " "), Expect: expectOf(prog)}
-			switch d.Pick(7, "variant") {
+			switch d.Pick(8, "variant") {
+			case 7: // one punctuation token removed or doubled
+				var at []int
+				for i, tk := range toks {
+					if punctTokens[tk] {
+						at = append(at, i)
+					}
+				}
+				if len(at) == 0 {
+					return nil
+				}
+				i := at[d.Pick(len(at), "which")]
+				c.Kind = "punct"
+				var out []string
+				// (removing a type operator can leave a sentence: in `A * 1` -> `A 1` the name is read as
+				// a mode word; operators are only doubled)
+				isOp := toks[i] == "*" || toks[i] == "-*" || toks[i] == "/\\" || toks[i] == "\\/"
+				if isOp || d.Bool("double") {
+					out = append(append(append(out, toks[:i+1]...), toks[i]), toks[i+1:]...)
+					c.Inserted = fmt.Sprintf("%q doubled (token %d)", toks[i], i)
+				} else {
+					out = append(append(out, toks[:i]...), toks[i+1:]...)
+					c.Inserted = fmt.Sprintf("%q removed (token %d)", toks[i], i)
+				}
+				c.Variant = strings.Join(out, " ")
 			case 5: // one identifier respelled everywhere
 				var ids []string
 				seen := map[string]bool{}
